@@ -145,6 +145,12 @@ def eq(a, b):
         if len(a) != len(b):
             return False
         return And(*[eq(x, y) for x, y in zip(a, b)])
+    if hasattr(a, '_obj') and hasattr(b, '_obj'):
+        return a._obj is b._obj                     # concrete object views: identity of the real objects
+    if isinstance(a, bytes) and isinstance(b, str):
+        b = b.encode('latin-1')                     # spec constants are written as text
+    elif isinstance(b, bytes) and isinstance(a, str):
+        a = a.encode('latin-1')
     if is_sym(a) or is_sym(b):
         try:
             a, b = _lift(a, b)
@@ -184,6 +190,8 @@ def cat(*parts):
         if len(ps) == 1:
             return ps[0]
         return z3.Concat(*ps)
+    if any(isinstance(p, bytes) for p in parts):
+        parts = [p.encode('latin-1') if isinstance(p, str) else p for p in parts]
     out = parts[0]
     for p in parts[1:]:
         out = out + p
@@ -455,3 +463,37 @@ def int_of(s):
     if is_sym(s):
         return IntOf(s)
     return int(s)
+
+
+# ---- abstract terminal state (C18 fold argument) -----------------------------------------------------
+if z3 is not None:
+    TermProc = z3.Function('TermProc', Val, z3.StringSort(), Val)      # abstract state after one character
+    TermCur = z3.Function('TermCur', Val, z3.StringSort())            # parser state it determines
+    TermR = z3.Function('TermR', Val, z3.IntSort())
+    TermC = z3.Function('TermC', Val, z3.IntSort())
+
+
+def witness(v, name, n, pred, default=0):
+    """An existential witness: in the prover the ghost / drawn value `name`; concretely the least k < n with pred(k)."""
+    if getattr(v, 'concrete', False):
+        for k in range(n):
+            if pred(k):
+                return k
+        return default
+    w = getattr(v, name, None)
+    if w is None:
+        w = v.g[name]
+    return w
+
+
+class WitnessArray:
+    """concrete ghost array j -> least k < n with rel(j, k)"""
+    def __init__(self, n, rel):
+        self.n, self.rel = n, rel
+        self.default = -1
+
+    def get(self, j, default=None):
+        for k in range(self.n):
+            if self.rel(j, k):
+                return k
+        return -1
